@@ -67,6 +67,11 @@ static unsigned long ws_sess_counter;
  * beyond rxlen, which is reset per session) */
 static unsigned char *ws_rx_buf; static size_t ws_rx_cap;
 
+/* hooks for the C32 harness: run inside the message callback / inside the request handler
+ * after a successful upgrade */
+static void (*ws_in_msg)(struct ws_sess *s);
+static void (*ws_after_accept)(struct ws_sess *s);
+
 static void ws_on_msg(struct evws_connection *evws, int type, const unsigned char *data, size_t len, void *arg)
 {
 	struct ws_sess *s = arg;
@@ -87,6 +92,7 @@ static void ws_on_msg(struct evws_connection *evws, int type, const unsigned cha
 		s->app_closed = 1;
 		evws_close(evws, WS_CR_NORMAL);
 	}
+	if (ws_in_msg) ws_in_msg(s);
 }
 
 static void ws_on_close(struct evws_connection *evws, void *arg)
@@ -97,9 +103,6 @@ static void ws_on_close(struct evws_connection *evws, void *arg)
 	if (!s->in_teardown) s->closed = 1;
 	s->evws = NULL;
 }
-
-/* hook for the C32 harness: runs inside the request handler after a successful upgrade */
-static void (*ws_after_accept)(struct ws_sess *s);
 
 static void ws_on_request(struct evhttp_request *req, void *arg)
 {
